@@ -237,17 +237,35 @@ def build_subjects(metas, cfgs, name, extra_src="", template="subj-template", pa
 
 
 def run_subject(binary, requests, timeout=600):
-    """requests: list of strings. Returns list of replies (dict) ; a missing reply (process died,
-    e.g. stack overflow or abort) is reported as {"died": ...} and the run continues after it."""
-    replies = []
-    i = 0
+    """requests: list of strings. Returns list of replies (dict).  A missing reply (the process died:
+    stack overflow, abort by the driver's hang watchdog, ...) is reported as {"died": ...} and the run
+    continues after it.  A definition (first token of the request) that kills the process three times is
+    not run any further in this call: its remaining requests are answered {"died": "skipped ..."}."""
     n = len(requests)
+    replies = [None] * n
+    deaths = {}
+    banned = set()
+
+    def key(line):
+        parts = line.split(" ", 2)
+        return parts[1] if parts[0] in ("S", "R") and len(parts) > 1 else parts[0]
+
+    i = 0
     while i < n:
-        chunk = requests[i:]
+        idxs = []
+        for j in range(i, n):
+            if key(requests[j]) in banned:
+                replies[j] = {"died": "skipped after repeated deaths of this definition"}
+            else:
+                idxs.append(j)
+        if not idxs:
+            break
+        chunk = [requests[j] for j in idxs]
         try:
             p = subprocess.run([binary], input="\n".join(chunk) + "\n", capture_output=True, text=True, timeout=timeout)
             lines = p.stdout.split("\n")
             rc = p.returncode
+            err = p.stderr[-300:]
             hung = False
         except subprocess.TimeoutExpired as e:
             out = e.stdout or b""
@@ -255,6 +273,7 @@ def run_subject(binary, requests, timeout=600):
                 out = out.decode(errors="replace")
             lines = out.split("\n")
             rc = None
+            err = ""
             hung = True
         got = []
         for l in lines:
@@ -264,12 +283,20 @@ def run_subject(binary, requests, timeout=600):
                 got.append(json.loads(l))
             except Exception:
                 break
-        replies.extend(got[:len(chunk)])
-        i += len(got)
-        if i < n and len(got) < len(chunk):
-            replies.append({"died": "timeout" if hung else "exit %s" % rc, "stderr": "" if hung else p.stderr[-400:]})
-            i += 1
-    return replies
+        got = got[:len(chunk)]
+        for j, rep in zip(idxs, got):
+            replies[j] = rep
+        if len(got) < len(chunk):
+            j = idxs[len(got)]
+            replies[j] = {"died": "timeout" if hung else "exit %s" % rc, "stderr": err}
+            k = key(requests[j])
+            deaths[k] = deaths.get(k, 0) + 1
+            if deaths[k] >= 3:
+                banned.add(k)
+            i = j + 1
+        else:
+            i = n
+    return [r if r is not None else {"died": "not run"} for r in replies]
 
 
 # ------------------------------------------------------------------------------------------
